@@ -800,7 +800,10 @@ pub fn explore(prop: &str, seed: u64, thorough: bool, st: &mut Stats) -> Vec<Rep
         *CUR.lock().unwrap() = Some((serde_json::to_value(&p.sc).unwrap(), p.mode.to_string(), p.strat.clone(), p.rs, seed, has_rdv));
         // the pool is part of the built dispatcher: a variant with another pool gets its own
         let mut own;
-        let bref = if p.sc.pool != sc.pool {
+        // and a run with an injected panic starts from a fresh dispatcher, so that every record
+        // is reproducible on its own (what a panic leaves behind is checked inside that run,
+        // by the recovery dispatch)
+        let bref = if p.sc.pool != sc.pool || !p.sc.faults.is_empty() && p.sc.faults.iter().any(|f| f.kind != FaultKind::Rendezvous) {
             own = build(&p.sc, &BuildOpts::default());
             &mut own
         } else {
